@@ -76,6 +76,13 @@ def step (st : Cfg × Site) (field : Str) : Cfg × Site :=
     else if tag == "outkind".toList then ({ c with outKind := natOf (args.headD []) }, s)
     else if tag == "outmissing".toList then ({ c with outMissing := natOf (args.headD []) }, s)
     else if tag == "gmissing".toList then ({ c with gMissing := natOf (args.headD []) }, s)
+    else if tag == "old".toList then
+      -- symbolic link in the old output / graph directory: location, physical target, is-directory, removal fails
+      match args with
+      | [a, b, d, k] =>
+        ({ c with links := c.links ++ [(absPath a, absPath b)],
+                  old := c.old ++ [{ loc := absPath a, target := absPath b, isDir := isOne d, kept := isOne k }] }, s)
+      | _ => st
     else if tag == "pre".toList then ({ c with pre := c.pre ++ [absPath (args.headD [])] }, s)
     else if tag == "lib".toList then (c, { s with libs := s.libs ++ [parseTree args] })
     else if tag == "searchtree".toList then (c, { s with searchTree := parseTree args })
@@ -115,7 +122,7 @@ def dispatchC19 : List Str → Option (List Str)
       let (c, s) := parse args
       let g := match graphDir c with | some g => showPath g | none => ['-']
       some ((if refuses c then "refused".toList else "ok".toList) :: showPath (outDir c) :: g ::
-            b01 (noEscape s) :: (run c s).map showPrim)
+            b01 (noEscape s) :: (runPhys c s).map showPrim)
     else if cmd == "c19.guard".toList then
       -- output dir, page location, copy_subdir items: target of each item and the guard's verdict
       match args with
